@@ -21,6 +21,7 @@ RULE = (
 ASSUMPTIONS = c01.ASSUMPTIONS + ["equal-shaped parameters so that a misaligned state list raises no shape error"]
 EXHAUSTIVE = {"quick": "all 3-step mask sequences for k=2 parameters (64) per configuration", "thorough": "all 3-step mask sequences for k=2 (64) and k=3 (512) parameters per configuration"}
 TIMEOUT = {"quick": 1200, "thorough": 5400}
+CONFIRM_BY_RERUN = True  # ranks are threads here: an alarm must reproduce in a fresh process (vf/main.py)
 ANCHORS = {
     "distributed_shampoo/distributed_shampoo.py": ["DistributedShampoo._mask_state_lists", "DistributedShampoo.step"],
     "distributed_shampoo/utils/shampoo_distributor.py": ["DistributorInterface._merge_and_block_gradients", "Distributor.merge_and_block_gradients"],
